@@ -313,6 +313,7 @@ def canon_run_line(l):
 
 # the hand-model harnesses (real glm on seeded/exhaustive inputs) under every configuration: same output stream as the default build
 C15_HARNESSES = {   # name: (extra flags, argv after the binary, configurations under which the HARNESS itself does not compile)
+    'C15': (['-O1'], lambda s: ['run', s, '400'], []),        # diff/C15.cpp: cross-type conversions the tracer cannot see
     'C05': (['-O1'], lambda s: ['lines', 'quick', s], []),
     'C06': (['-O1'], lambda s: ['lines', 'quick', s], ['CXX98', 'CXX03', 'CXX98_XYZW_CTORINIT', 'INLINE', 'SIZE_T_INLINE_EXPLICIT']),
     'C07': (['-O2'], lambda s: ['quick', s, '20000'], []),
@@ -362,7 +363,8 @@ def harness_cfg_compare(configs, seed, unexplained, violations, prop):
     jobs = []
     for h, (hflags, argvf, skip) in C15_HARNESSES.items():
         src = os.path.join(VERIF, 'diff', h + '.cpp')
-        for cname, cflags in [('default', [])] + list(configs):
+        # the conversion probe is cheap: every configuration also in the quick tier
+        for cname, cflags in [('default', [])] + list(C15_CONFIGS if h == 'C15' else configs):
             if cname in skip: continue
             flags = ['-std=c++17', '-ffp-contract=off', '-w'] + hflags + cflags
             key = sha_files([src], glm_tree_hash() + ' '.join(flags))[:16]
